@@ -309,6 +309,23 @@ def expr_subscript(a: int, b: int) -> bool:
     return _check_expr(ast.Subscript(_leaf(a), _leaf(b), ast.Load()), "expr_subscript", (a, b))
 
 
+CONTAINERS = ["l", "t", "s", "ls", "d", "e"]  # list of 2, tuple of 1, str of 1, nested list of 1, dict, empty dict
+INDEXES = [0, 1, 2, 3, 10 ** 9, True, "k", None, 2.5]
+
+
+def expr_subscript_index(c: int, k: int, neg: bool) -> bool:
+    """Subscripts at and beyond both ends of every container kind: positions 0..len+1 and huge,
+    written as non-negative literals and (neg) behind a unary minus, plus non-integer keys.
+    post: _
+    """
+    cont = ast.Name(CONTAINERS[hx.pick(c, len(CONTAINERS))], ast.Load())
+    key = INDEXES[hx.pick(k, len(INDEXES))]
+    idx: ast.AST = ast.Constant(key)
+    if hx.decide(neg):
+        idx = ast.UnaryOp(ast.USub(), idx)
+    return _check_expr(ast.Subscript(cont, idx, ast.Load()), "expr_subscript_index", (c, k, neg))
+
+
 def expr_attribute(a: int) -> bool:
     """
     post: _
@@ -560,6 +577,7 @@ PLAN = [
     ("expr_compare", "quick", 280),
     ("expr_compare_chain", "thorough", 1500),
     ("expr_subscript", "quick", 120),
+    ("expr_subscript_index", "quick", 120),
     ("expr_attribute", "quick", 60),
     ("expr_boolop", "quick", 120),
     ("expr_ifexp", "quick", 280),
